@@ -376,6 +376,67 @@ func runC16(c *Ctx) {
 		ob.HoldNT("enqueueWrite(append([]byte{}, b...))")
 	}
 
+	// a Write that loses the race with Close (send on the closed channel, recovered) must report it
+	ob = c.Obl("R4", "transports/meeklite:(*meekConn).enqueueWrite#closed-reported", "the recover handler of enqueueWrite stores the failure into enqueueWrite's own named result (not into a variable of its own): a Write that was blocked while the connection closed does not report success")
+	if enqF := p.Func("transports/meeklite:(*meekConn).enqueueWrite"); enqF == nil {
+		ob.Undecide("enqueueWrite not found")
+	} else {
+		c.Touch(p.FuncKey(enqF))
+		// named results are allocs that a Return loads from; the handler gets them as free variables
+		resAllocs := map[ssa.Value]bool{}
+		for _, r := range returnsOf(enqF) {
+			for _, v := range r.Results {
+				if u, ok := v.(*ssa.UnOp); ok {
+					if al, ok := u.X.(*ssa.Alloc); ok {
+						resAllocs[al] = true
+					}
+				}
+			}
+		}
+		okStore, nRecover := false, 0
+		for _, af := range enqF.AnonFuncs {
+			hasRecover := false
+			allInstrs(af, func(in ssa.Instruction) {
+				if ci, ok := in.(ssa.CallInstruction); ok && p.CalleeID(ci.Common()) == "builtin:recover" {
+					hasRecover = true
+				}
+			})
+			if !hasRecover {
+				continue
+			}
+			nRecover++
+			var mk *ssa.MakeClosure
+			allInstrs(enqF, func(in ssa.Instruction) {
+				if m, ok := in.(*ssa.MakeClosure); ok && m.Fn == ssa.Value(af) {
+					mk = m
+				}
+			})
+			allInstrs(af, func(in ssa.Instruction) {
+				st, ok := in.(*ssa.Store)
+				if !ok || mk == nil {
+					return
+				}
+				fv, ok := st.Addr.(*ssa.FreeVar)
+				if !ok {
+					return
+				}
+				for i, f := range af.FreeVars {
+					if f == fv && i < len(mk.Bindings) && resAllocs[mk.Bindings[i]] {
+						okStore = true
+					}
+				}
+			})
+		}
+		switch {
+		case nRecover == 0:
+			ob.Violate("enqueueWrite has no recover handler: a send on the closed channel panics the caller")
+		case !okStore:
+			ob.Violate("the recover handler does not assign enqueueWrite's result: the failure is lost and Write reports success after Close")
+		default:
+			ob.HoldNT("the handler assigns the named result")
+		}
+	}
+
 	// ---- R6
 	ob = c.Obl("R6", p.FuncKey(iow)+"#stops-on-close", "polling stops after Close: the worker's blocking select listens on workerCloseChan and that arm leaves the loop; Close closes the channel exactly once (C10.R6)")
 	bad = "the worker's select does not listen on workerCloseChan"
